@@ -260,8 +260,69 @@ class _Lower(ast.NodeTransformer):
             return ast.copy_location(new, st)
         return None
 
+    _n = [0]
+
+    def _hoist_nested(self, st: ast.stmt, holder: ast.AST, attr: str):
+        """f(a, b=X if c else Y)  ->  t = X if c else Y; f(a, b=t)   when everything evaluated before the conditional is duplicable."""
+        e = getattr(holder, attr)
+        if e is None or isinstance(e, ast.IfExp):
+            return None
+        found = []
+
+        def walk(x, before_ok):
+            # returns False when an impure sub-expression is met before the first IfExp
+            if isinstance(x, ast.IfExp):
+                found.append(x)
+                return False
+            if isinstance(x, (ast.Lambda, ast.GeneratorExp, ast.ListComp, ast.SetComp, ast.DictComp, ast.BoolOp)):
+                return substitutable(x)
+            if isinstance(x, ast.Call):
+                if not walk(x.func, True):
+                    return False
+                for a in list(x.args) + [k.value for k in x.keywords]:
+                    if not walk(a, True):
+                        return False
+                return False  # the call itself happens after its arguments; nothing after it may be hoisted over it
+            for c in ast.iter_child_nodes(x):
+                if isinstance(c, ast.expr):
+                    if not walk(c, True):
+                        return False
+            return True
+
+        walk(e, True)
+        if len(found) != 1:
+            return None
+        tgt = found[0]
+        self._n[0] += 1
+        nm = f"_c{self._n[0]}_"
+
+        class Rep(ast.NodeTransformer):
+            def visit_IfExp(self, n):
+                if n is tgt:
+                    return ast.copy_location(ast.Name(id=nm, ctx=ast.Load()), n)
+                return self.generic_visit(n)
+
+        setattr(holder, attr, Rep().visit(e))
+        pre = ast.copy_location(ast.Assign(targets=[ast.Name(id=nm, ctx=ast.Store())], value=tgt), st)
+        ast.fix_missing_locations(pre)
+        return [self.visit(pre), st]
+
+    def visit_Expr(self, st: ast.Expr):
+        v = st.value
+        if isinstance(v, ast.Yield) and v.value is not None:
+            r = self._hoist_nested(st, v, "value")
+            if r is not None:
+                return r
+        elif isinstance(v, ast.Call):
+            r = self._hoist_nested(st, st, "value")
+            if r is not None:
+                return r
+        return st
+
     def visit_Assign(self, st: ast.Assign):
         r = self._split(st)
+        if r is None and isinstance(st.value, ast.Call):
+            r = self._hoist_nested(st, st, "value")
         return r if r is not None else st
 
     def visit_AnnAssign(self, st: ast.AnnAssign):
@@ -275,6 +336,8 @@ class _Lower(ast.NodeTransformer):
         if st.value is None:
             return st
         r = self._split(st)
+        if r is None and isinstance(st.value, ast.Call):
+            r = self._hoist_nested(st, st, "value")
         return r if r is not None else st
 
     def visit_FunctionDef(self, node):
@@ -548,6 +611,7 @@ class Summariser:
         if fn.args.kwarg:
             self.bound.add(fn.args.kwarg.arg)
         self.count = 0
+        self._conds: Dict[str, ast.AST] = {}
 
     # -- public --------------------------------------------------------------
     def paths(self) -> List[PathSummary]:
@@ -629,6 +693,7 @@ class Summariser:
                     truth = {k: v for k, v in truth.items() if not (self._mentions(k) & body_names)}
                     ld = loops_done | {n}
                 t = self.sub(node.ast, env)
+                self._conds = env.get("%cond", {})
                 if again:
                     # the loop ends eventually: leave it, forgetting what its test said before the body ran
                     keys = set()
@@ -771,6 +836,13 @@ class Summariser:
             v = truth[key]
             yield truth, {}, (not v) if flip else v
             return
+        if isinstance(t, ast.Name) and t.id in self._conds:
+            for tr2, new2, v in self._decide(self._conds[t.id], truth, ep):
+                if v is not None:
+                    tr2 = dict(tr2)
+                    tr2[t.id] = v
+                yield tr2, new2, v
+            return
         cv = self._const(t)
         if cv is not None:
             yield truth, {}, cv
@@ -814,6 +886,12 @@ class Summariser:
     def _bind(self, env: Dict[str, ast.AST], name: str, value: ast.AST) -> bool:
         if name in self.keep or not substitutable(value, self.pure_calls):
             self._opaque(env, [name])
+            conds = dict(env.get("%cond", {}))
+            if _is_boolish(value) and name not in self.keep:
+                conds[name] = value  # a named condition: testing the name is testing the expression it was bound to
+            else:
+                conds.pop(name, None)
+            env["%cond"] = conds
             env["%killed"] = set(env.get("%killed", ())) | {name}
             if never_none(value):
                 facts = dict(env.get("%facts", {}))
